@@ -1,0 +1,6 @@
+// Package verifhook provides scheduling points for verification harnesses.
+//
+// Point marks a place right before a synchronisation step of a concurrent kernel. In normal builds it
+// is an empty function that the compiler removes. With the build tag `verif` a harness can install a
+// hook that is called with the point's name, which lets it replay a specific interleaving.
+package verifhook
